@@ -195,6 +195,8 @@ def eol_for(key):
 def join_lines(lines, key):
     """the text of an input file: LF-terminated lines (2 of 4 cases), LF without a terminator after the last record
     (1 of 4), or Windows line ends throughout (1 of 4) - chosen by a stable hash of the case id"""
+    if not lines:
+        return ""       # a file without records is an empty file
     h = zlib.crc32(("j" + str(key)).encode()) % 4
     if h == 0:
         return "\n".join(lines)
